@@ -7,6 +7,7 @@ From Boltons Require Import Proofs.C09_Strip Proofs.C09_Chunked Proofs.C09_Split
 From Boltons Require Import Proofs.C09_Windowed Proofs.C09_Ranges Proofs.C09_Redundant Proofs.C09_WsLaws.
 From Boltons Require Import Model.C09_PyRanges Proofs.C09_PyRangesProof Gen.C09_Gen Proofs.C09_GenTie.
 From Boltons Require Import Gen.C09_Src Proofs.C09_SrcLoops Proofs.C09_SrcStrip Proofs.C09_SrcRedundantSafe.
+From Boltons Require Import Model.C09_PyWindow Proofs.C09_PyWindowProof Gen.C09_Win Proofs.C09_WinTie.
 From Coq Require Import Permutation.
 From Boltons Require Import Proofs.C09_Conserve.
 
@@ -443,4 +444,28 @@ Print Assumptions C09_strip_iters_source_is_model.
 Example C09_split_iter_source_ex :
   Gsplit_iter [1; 0; 0; 2; 0; 3; 0] (Nat.eqb 0) true false 1 = [[1]; [2; 0; 3; 0]]
   /\ Gunique_iter [1; 2; 1; 3; 2] (fun x => x) = [1; 2; 3].
+Proof. split; reflexivity. Qed.
+
+(* ===== (T) windowed_iter: the source as a program of Model/C09_PyWindow.v ===== *)
+(* tees / enumerate / range(i) / next(t) / try-except StopIteration / continue /
+   the three returns, interpreted structurally (no fuel); tee, zip and
+   zip_longest are read the way the hand-written model reads them *)
+Theorem C09_windowed_iter_source_unchanged : gen_windowed_prog = expected_windowed_prog.
+Proof. exact gen_windowed_is_expected. Qed.
+Print Assumptions C09_windowed_iter_source_unchanged.
+
+Theorem C09_windowed_iter_source_is_model :
+  forall src size fill, run_windowed gen_windowed_prog src size fill = Some (m_windowed src size fill).
+Proof. exact gen_windowed_source_is_model. Qed.
+Print Assumptions C09_windowed_iter_source_is_model.
+
+Theorem C09_windowed_iter_source_is_slices :
+  forall src size fill, 1 <= size ->
+    run_windowed gen_windowed_prog src size fill = Some (spec_windowed src size fill).
+Proof. exact gen_windowed_source_is_slices. Qed.
+Print Assumptions C09_windowed_iter_source_is_slices.
+
+Example C09_windowed_iter_source_ex :
+  run_windowed gen_windowed_prog [1; 2; 3; 4] 3 (Some 0) = Some [[1; 2; 3]; [2; 3; 4]; [3; 4; 0]; [4; 0; 0]]
+  /\ run_windowed gen_windowed_prog [1; 2] 5 None = Some [].
 Proof. split; reflexivity. Qed.
